@@ -24,6 +24,7 @@ class Scen(object):
     self.info = {}
     self.splits = []
     self.mono = []
+    self.replay = None        # {'class': name, 'kwargs': {k: python value | z3 expr}, ...}
 
   def claim(self, name, goal):
     self.goals[name] = ("claim", goal)
@@ -86,6 +87,22 @@ def _goal_expr(g):
   if isinstance(g, SBool):
     return g.e
   return g
+
+
+def _eval_replay(model, spec):
+  if spec is None:
+    return None
+  def ev(v):
+    if isinstance(v, z3.ExprRef):
+      return VC.model_value(model, v)
+    if isinstance(v, SNum) or isinstance(v, SBool):
+      return VC.model_value(model, v.e)
+    if isinstance(v, dict):
+      return {k: ev(x) for k, x in v.items()}
+    if isinstance(v, (list, tuple)):
+      return [ev(x) for x in v]
+    return v
+  return ev(spec)
 
 
 def _witness(model, vars_):
@@ -245,6 +262,8 @@ def _run_clause(case, cname, per_path, timeout, known_entries, res):
       if o2.status == "sat":
         out["status"] = "failed"
         out["witness"] = _witness(o2.model, vars_)
+        if s is not None and s.replay is not None:
+          out["witness"]["__replay__"] = _eval_replay(o2.model, s.replay)
         out["model_raw"] = str(o2.model)[:3000]
         out["path"] = p.decisions
         break
@@ -266,6 +285,8 @@ def _run_clause(case, cname, per_path, timeout, known_entries, res):
       ok = VC.check_sat(base + ax + [x] + conc + bounds, max(timeout, 20000), use_external=False)
       out["seconds"] += ok.seconds
       if ok.status == "sat":
-        out["known"].append({"id": ent["id"], "what": ent["what"],
-                             "witness": _witness(ok.model, vars_)})
+        wk = _witness(ok.model, vars_)
+        if s is not None and s.replay is not None:
+          wk["__replay__"] = _eval_replay(ok.model, s.replay)
+        out["known"].append({"id": ent["id"], "what": ent["what"], "witness": wk})
   return out
